@@ -15,6 +15,8 @@ CONSTANTS
   RADS = {8}
   GMS = {64}
   TableEnds = "nearest"
+  ElemType = "float64"
+  WorkArrays = "float"
   Slicing = "layer"
   Export = FALSE
 INVARIANT LayerIsGeometricMean
